@@ -1748,13 +1748,92 @@ theorem initState_getD (x : List Bool) (N q : Nat) :
 theorem initState_length (x : List Bool) (N : Nat) (h : x.length ≤ N) : (initState x N).length = N := by
   unfold initState; simp; omega
 
+/-- the top-level expression is a bare argument symbol: copied into a new qubit (`CX`) when the
+defined name is a return name `_ret…`, aliased otherwise -/
+theorem topSym_sem {inputs : List String} {ρ : Env} {σ0 : FState} {r : String} (amb : Amb inputs σ0 r)
+    {n : String} (hn : n ∈ inputs) {iret : Nat} {s t : CState}
+    (h : (compileSymbol n (some r)).run s = .ok (iret, t)) (hp : Pre inputs ρ σ0 s)
+    (hinp : s.inputs = inputs) :
+    cur σ0 t iret = ρ n ∧ t.qc.marked = s.qc.marked := by
+  obtain ⟨i, hi⟩ := idx_of_mem hn
+  have hbi := hp.bind i n hi
+  have hil := (mem_of_getElem?' hi).2
+  have fin : ∀ {a : Nat} {s' : CState}, StateT.run (do
+      let qc ← getQC
+      match dictGet? qc.qmap n with
+        | some i => pure i
+        | none => throw s!"CompilerException: Symbol not found in qc: {n}" : M Nat) s = .ok (a, s') →
+      cur σ0 s' a = ρ n ∧ s'.qc.marked = s.qc.marked := by
+    intro a s' h
+    obtain ⟨qc, s1, hq, h⟩ := run_bind_ok.mp h
+    obtain ⟨rfl, rfl⟩ := getQC_run hq
+    split at h
+    · next j hj =>
+      obtain ⟨rfl, rfl⟩ := run_pure_ok.mp h
+      rw [hbi] at hj
+      cases hj
+      exact ⟨hp.vals i n hi, rfl⟩
+    · exact (run_throw_ok.mp h).elim
+  unfold compileSymbol at h
+  dsimp only at h
+  split at h
+  · rw [run_get_bind_ok] at h
+    split at h
+    · obtain ⟨a0, s2, hadd, h2⟩ := run_bind_ok.mp h
+      obtain ⟨ha0, hs2⟩ := addQubit_run hadd
+      obtain ⟨stA, _, _, _, _⟩ := addQubit_ok (B := (· = r)) hadd hp.good (Or.inl rfl)
+      obtain ⟨q, s3, hl, h3⟩ := run_bind_ok.mp h2
+      obtain ⟨rfl, hq, _⟩ := lookup_ok hl stA.good
+      obtain ⟨u, s4, hcx, hpure⟩ := run_bind_ok.mp h3
+      obtain ⟨rfl, rfl⟩ := run_pure_ok.mp hpure
+      have ac := cx_run hcx
+      have hqi : q = i := by
+        rw [hs2] at hq
+        change dictGet? (dictSet s.qc.qmap r s.qc.numQubits) n = some q at hq
+        rw [dictGet?_dictSet_ne (amb.fresh n hn).1, hbi] at hq
+        exact (Option.some.inj hq).symm
+      subst hqi
+      have hc3 : cur σ0 s3 = cur σ0 s := by unfold cur; rw [hs2]
+      refine ⟨?_, ?_⟩
+      · rw [ac.cur_eq rfl σ0, hc3, ha0, zero_of_good amb hp.good hp.nin _ (Nat.le_refl _)]
+        simp only [List.all_cons, List.all_nil, Bool.and_true, Bool.false_bne]
+        exact hp.vals q n hi
+      · rw [ac.marked, hs2]
+    · next hc =>
+      exfalso; apply hc
+      rw [hinp]; simpa using hn
+  · exact fin h
+
+/-- the expression of the single definition, compiled with `sym = some r` -/
+theorem topExpr_sem {inputs : List String} {ρ : Env} {σ0 : FState} {r : String} (amb : Amb inputs σ0 r)
+    {e : BExp} (hov : overInputs inputs e = true) (htl : treeLike e = true) {iret : Nat} {s t : CState}
+    (h : (compileExpr e none (some r)).run s = .ok (iret, t)) (hp : Pre inputs ρ σ0 s)
+    (hex : s.expq = []) (hmk : s.qc.marked = []) (hinp : s.inputs = inputs) :
+    cur σ0 t iret = e.eval ρ ∧ iret ∉ t.qc.marked := by
+  cases hs : isSym e with
+  | true =>
+    cases e with
+    | sym n =>
+      unfold compileExpr at h
+      obtain ⟨hv, hm⟩ := topSym_sem amb (by simpa [overInputs] using hov) h hp hinp
+      exact ⟨hv, by rw [hm, hmk]; exact List.not_mem_nil⟩
+    | _ => simp [isSym] at hs
+  | false =>
+    obtain ⟨sem1, hv1, _⟩ := exprSem (ρ := ρ) amb e hov (distinctB_iff.mp htl) none (some r) h hp
+      (by intro p hp'; rw [hex] at hp'; cases hp') (by intro d hd; cases hd) (by intro y hy; cases hy; rfl)
+      (by intro hs'; rw [hs] at hs'; cases hs')
+    refine ⟨(hv1 rfl).2, fun hm => ?_⟩
+    rcases sem1.marks iret hm with h | h
+    · rw [hmk] at h; cases h
+    · exact h.2 rfl rfl
+
 /-- **one definition `r = e` in the fragment, no final uncomputation**: after every successful run of
 `compile` the qubit mapped to `r` ends with the value of `e`, on every input `x` -/
 theorem compile_single_sem {inputs : List String} {r : String} {e : BExp} {rets : List String}
     {cs : List Nat} {s : CState}
     (h : (compile inputs [(r, e)] (some rets) false).run { choices := cs } = .ok ((), s))
     (hnd : inputs.Nodup) (hfresh : ∀ n ∈ inputs, n ≠ r ∧ reservedName n = false)
-    (hov : overInputs inputs e = true) (htl : treeLike e = true) (hns : isSym e = false)
+    (hov : overInputs inputs e = true) (htl : treeLike e = true)
     (x : List Bool) (hx : x.length = inputs.length) :
     ∃ q, dictGet? s.qc.qmap r = some q ∧
       (runClassical s.qc.gates.toList (initState x s.qc.numQubits)).getD q false =
@@ -1766,7 +1845,7 @@ theorem compile_single_sem {inputs : List String} {r : String} {e : BExp} {rets 
   obtain ⟨u1, s1, hin, h2⟩ := run_bind_ok.mp h1
   obtain ⟨st1, hn1, _, hpos⟩ := addInputs_ok inputs hin hg0
   obtain ⟨ha1, hf1, hm1⟩ := addInputs_scratch inputs hin
-  obtain ⟨hga1, hex1, _⟩ := addInputs_quiet inputs hin
+  obtain ⟨hga1, hex1, hinp1⟩ := addInputs_quiet inputs hin
   obtain ⟨u2, s2, hdefs, h3⟩ := run_bind_ok.mp h2
   obtain ⟨st2, _⟩ := compileDefs_ok (B := (· = r)) [(r, e)] hdefs st1.good
     (fun p hp => by simp at hp; rw [hp])
@@ -1814,15 +1893,7 @@ theorem compile_single_sem {inputs : List String} {r : String} {e : BExp} {rets 
   obtain ⟨_, rfl⟩ := run_pure_ok.mp k5
   obtain ⟨q1, hlt⟩ := exprSpec (B := (· = r)) e none (some r) he st1.good (by intro d hd; cases hd)
     (by intro y hy; cases hy; rfl)
-  obtain ⟨sem1, hv1, _⟩ := exprSem (ρ := envOf (inputs.zip x)) amb e hov (distinctB_iff.mp htl) none (some r) he hp1
-    (by intro p hp; rw [hex1] at hp; cases hp) (by intro d hd; cases hd) (by intro y hy; cases hy; rfl)
-    (by intro hs; rw [hns] at hs; cases hs)
-  obtain ⟨_, hval⟩ := hv1 rfl
-  have hnm : iret ∉ t1.qc.marked := by
-    intro hm
-    rcases sem1.marks iret hm with h | h
-    · rw [hm1] at h; cases h
-    · exact h.2 rfl rfl
+  obtain ⟨hval, hnm⟩ := topExpr_sem (ρ := envOf (inputs.zip x)) amb hov htl he hp1 hex1 hm1 hinp1
   have q2 : Step (· = r) t1 t2 := expqSet_ok hset q1.good hlt
   obtain ⟨hqc2, _⟩ := expqSet_run hset
   obtain ⟨q3, hkey⟩ := mapQubit_ok (B := (· = r)) hmap q2.good (Nat.lt_of_lt_of_le hlt q2.nq_le) rfl
